@@ -19,21 +19,30 @@ JInit == i \in 1..Len(Cases) /\ ph = 0 /\ str = <<>>
 JNext == ph = 0 /\ ph' = 1 /\ UNCHANGED <<i, str>>      \* the verdict is computed on the successor state (by the worker threads)
 JSpec == JInit /\ [][JNext]_<<i, ph, str>>
 C == Cases[i]
+(* with sanitisation on (uriExact = FALSE) the URI and header values may be redacted: they must be there and well-formed, their
+   content is C15's subject *)
+Redactable == {"uri", "request-header", "response-header"}
+(* C.xs = the delivered exchanges in delivery order (one for the string family, many for a CLI run) *)
+EntryVerdict(flat, n) ==
+    LET x == C.xs[n]
+        d == EntryDiffs(flat, n, x, C.preserve) IN
+    (IF C.uriExact THEN d
+     ELSE (d \ Redactable) \cup (IF Has(flat, Entry(n) \o <<P(K_request), P(K_uri)>>) THEN {} ELSE {"uri"}))
+    \cup MetaDiffs(flat, n, x.meta)
 VcrVerdict == IF ~C.vcr.written THEN {<<"vcr", 0, "missing">>}
               ELSE LET flat == FlattenDoc(C.vcr.doc) IN
                    IF ~flat.ok THEN {<<"vcr", flat.bad, "malformed">>}
-                   ELSE (IF NEntries(flat) = 1 THEN {} ELSE {<<"vcr", NEntries(flat), "count">>})
-                        \cup {<<"vcr", 1, tag>> : tag \in
-                                (IF C.uriExact THEN EntryDiffs(flat, 1, C.x, C.preserve)
-                                 ELSE (EntryDiffs(flat, 1, C.x, C.preserve) \ {"uri"})
-                                      \cup (IF Has(flat, Entry(1) \o <<P(K_request), P(K_uri)>>) THEN {} ELSE {"uri"}))
-                                \cup MetaDiffs(flat, 1, "coverage")
-                                \cup (IF C.x.command.has /\ ~(Len(Values(flat, <<P(K_command)>>)) = 1 /\ Val(flat, <<P(K_command)>>) = C.x.command.v)
-                                      THEN {"command"} ELSE {})}
+                   ELSE (IF NEntries(flat) = Len(C.xs) THEN {} ELSE {<<"vcr", NEntries(flat), "count">>})
+                        \cup UNION {{<<"vcr", n, tag>> : tag \in EntryVerdict(flat, n)}
+                                    : n \in 1..(IF NEntries(flat) < Len(C.xs) THEN NEntries(flat) ELSE Len(C.xs))}
+                        \cup (IF C.command.has /\ ~(/\ Len(Values(flat, <<P(K_command)>>)) = 1
+                                                     /\ (C.command.exact => Val(flat, <<P(K_command)>>) = C.command.v))
+                              THEN {<<"vcr", 0, "command">>} ELSE {})
 HarVerdict == IF ~C.har.ok THEN {<<"har", 0, "malformed">>}
-              ELSE IF Len(C.har.entries) # 1 THEN {<<"har", Len(C.har.entries), "count">>}
-              ELSE {<<"har", 1, tag>> : tag \in (IF C.uriExact THEN HarDiffs(C.har.entries[1], C.x, C.preserve)
-                                                  ELSE HarDiffs(C.har.entries[1], C.x, C.preserve) \ {"uri"})}
+              ELSE (IF Len(C.har.entries) = Len(C.xs) THEN {} ELSE {<<"har", Len(C.har.entries), "count">>})
+                   \cup UNION {{<<"har", n, tag>> : tag \in (IF C.uriExact THEN HarDiffs(C.har.entries[n], C.xs[n], C.preserve)
+                                                               ELSE HarDiffs(C.har.entries[n], C.xs[n], C.preserve) \ Redactable)}
+                               : n \in 1..(IF Len(C.har.entries) < Len(C.xs) THEN Len(C.har.entries) ELSE Len(C.xs))}
 (* a lone surrogate is not a Unicode scalar value - YAML cannot represent it (readers disagree on the escape "\uD800");
    the cassette of a text field that contains one is outside the judged fragment *)
 TextFields == {"title", "message", "cov-description", "command"}
